@@ -84,8 +84,96 @@ def const_case(draw):
     return {"kind": "const", "value": v, "typed": draw(st.booleans()), "required": draw(st.booleans()), "literal": draw(st.booleans())}
 
 
+@st.composite
+def enum_pair_case(draw):
+    """Two enum schemas whose derived class names coincide (same title) and whose member names coincide too
+    (case variants / positional VALUE_i names) while the wire values differ: must be diagnosed or kept apart."""
+    mode = draw(st.sampled_from(["case", "positional", "same", "int"]))
+    if mode == "case":
+        a = draw(st.lists(st.sampled_from(["open", "closed", "pending", "done"]), min_size=1, max_size=3, unique=True))
+        b = [v.upper() for v in a]
+    elif mode == "positional":
+        a = draw(st.lists(st.sampled_from(["1x", "2x", "3x"]), min_size=1, max_size=3, unique=True))
+        b = [f"{i + 1}0GB" for i in range(len(a))]
+    elif mode == "int":
+        a = draw(st.lists(st.integers(0, 5), min_size=1, max_size=3, unique=True))
+        b = list(a)
+    else:
+        a = draw(st.lists(st.sampled_from(["open", "closed", "pending"]), min_size=1, max_size=3, unique=True))
+        b = list(a)
+    return {"kind": "enum_pair", "a": a, "b": b, "mode": mode, "literal": draw(st.booleans()),
+            "via": draw(st.sampled_from(["title", "inline_vs_component"])), "swap": draw(st.booleans())}
+
+
 def strategy(tier):
-    return st.one_of(enum_case(), enum_case(), enum_case(), const_case())
+    return st.one_of(enum_case(), enum_case(), enum_case(), const_case(), enum_pair_case())
+
+
+def _run_pair(case, ctx):
+    a, b = (case["b"], case["a"]) if case.get("swap") else (case["a"], case["b"])
+    ty = "integer" if isinstance(a[0], int) else "string"
+    if case["via"] == "title":
+        schemas = {"E1": {"type": ty, "enum": a, "title": "State"}, "E2": {"type": ty, "enum": b, "title": "State"},
+                   "Holder1": {"type": "object", "properties": {"ee": {"$ref": "#/components/schemas/E1"}}},
+                   "Holder2": {"type": "object", "properties": {"ee": {"$ref": "#/components/schemas/E2"}}}}
+    else:
+        schemas = {"Holder1": {"type": "object", "properties": {"ee": {"type": ty, "enum": a}}},
+                   "Holder1Ee": {"type": ty, "enum": b},
+                   "Holder2": {"type": "object", "properties": {"ee": {"$ref": "#/components/schemas/Holder1Ee"}}}}
+    doc = {"openapi": "3.0.3", "info": {"title": "t", "version": "1"}, "paths": {}, "components": {"schemas": schemas}}
+    res = sut.generate(doc, cfg={"literal_enums": bool(case.get("literal"))})
+    site = {"kind": "enum_pair", "mode": case["mode"], "style": "literal" if case.get("literal") else "class", "via": case["via"]}
+    try:
+        if res.exc is not None:
+            ctx.skip("generator_crashed")
+            return
+        if not res.accepted:
+            ctx.skip("rejected")
+            return
+        ctx.nontrivial(case)
+        ctx.sample = case
+        ctx.label("enum_pair:" + case["mode"])
+        try:
+            pkg = sut.Loaded(res.package_dir)
+            models = pkg.models
+        except BaseException as e:  # noqa: BLE001
+            if behave._is_ctl(e):
+                raise
+            ctx.skip("import_failed")
+            return
+        with pkg:
+            for hn, vals, others in (("Holder1", a, b), ("Holder2", b, a)):
+                H = getattr(models, hn, None)
+                if H is None:
+                    if not res.errors:
+                        ctx.violation("pair.dropped_silently", site, hn)
+                    else:
+                        ctx.label("pair:diagnosed")
+                    continue
+                for v in vals:
+                    ctx.evals()
+                    try:
+                        o = H.from_dict({"ee": v})
+                        raw = o.ee.value if isinstance(o.ee, enum.Enum) else o.ee
+                        if not json_eq(raw, v) or not json_eq(o.to_dict().get("ee"), v):
+                            ctx.violation("listed.decodes_to_itself", site, f"{hn}: {v!r} -> {o.ee!r}")
+                    except BaseException as e:  # noqa: BLE001
+                        if behave._is_ctl(e):
+                            raise
+                        ctx.violation("listed.accepted", {**site, "exc": type(e).__name__}, f"{hn}: {v!r}: {e!r}"[:300])
+                for v in others:
+                    if any(json_eq(v, w) for w in vals):
+                        continue
+                    ctx.evals()
+                    try:
+                        o = H.from_dict({"ee": v})
+                    except BaseException as e:  # noqa: BLE001
+                        if behave._is_ctl(e):
+                            raise
+                        continue
+                    ctx.violation("unlisted.rejected", {**site, "neg": "other_enums_value"}, f"{hn}: {v!r} accepted as {o.ee!r}")
+    finally:
+        env.rm(res.out)
 
 
 def _doc(case):
@@ -157,6 +245,8 @@ def _neg_kind(c, case) -> str:
 
 
 def run(case, ctx):
+    if case["kind"] == "enum_pair":
+        return _run_pair(case, ctx)
     doc = _doc(case)
     res = sut.generate(doc, cfg={"literal_enums": bool(case.get("literal"))})
     site0 = {"kind": case["kind"], "style": "literal" if case.get("literal") else "class"}
